@@ -6,6 +6,7 @@ SRC="$1"; NAME="$2"; shift 2
 WT=/tmp/wt-main
 export GOFLAGS=-mod=mod GOPROXY=off
 cd /verif
+[ -d $WT ] || git -C /repo worktree add -q --detach $WT HEAD
 git -C $WT reset -q --hard; git -C $WT checkout -q --detach "$(git -C /repo rev-parse HEAD)" && git -C $WT reset -q --hard && git -C $WT clean -fdq
 OUT=/verif/seeded/$NAME; mkdir -p $OUT
 cp $SRC/SEED/patch.diff $OUT/patch.diff
